@@ -2,6 +2,7 @@ CONSTANT Tier = "d0"
 CONSTANT Coerce = FALSE
 CONSTANT Deviations = {}
 CONSTANT SchemaGaps = {"flattened", "mapkeys", "discriminated"}
+CONSTANT VocabularyGaps = {}
 SPECIFICATION Spec
 INVARIANT ResultShape
 INVARIANT LocsInData
